@@ -51,7 +51,10 @@ func (d *downstream) handler(ctx context.Context, request []byte, next core.Next
 		return []byte(fmt.Sprintf("Ri%d;z", d.token)), nil
 	case 'e':
 		// every error is a failure, whatever kind it is: the kind rotates with the position in the sequence
-		switch d.token % 6 {
+		switch d.token % 7 {
+		case 6:
+			// a downstream that sits behind a breaker of its own: the same text, another error value
+			return nil, errors.New(circuitbreaker.ErrBreaker.Error())
 		case 1:
 			return nil, context.Canceled
 		case 2:
@@ -73,7 +76,9 @@ func (d *downstream) handler(ctx context.Context, request []byte, next core.Next
 
 // downError is the text of the error the downstream returns at position i.
 func downError(i int) string {
-	switch i % 6 {
+	switch i % 7 {
+	case 6:
+		return circuitbreaker.ErrBreaker.Error()
 	case 1, 5:
 		return context.Canceled.Error()
 	case 2:
